@@ -320,6 +320,17 @@ def resolve_cfg_and_attrs(toks, log, where=""):
         elif name in DROP_ATTRS:
             log.append("T2 %s line %d: #[%s..] removed" % (where, t.line, name))
             blank(toks[i:end]); i = end
+        elif name == "derive" and any(x.k == "id" and x.s == "Debug" for x in inner):
+            # T2: `Debug` is dropped from derive lists (formatting only); the other derives stay
+            names = [x.s for x in inner[2:-1] if x.k == "id"]
+            keep = [x for x in names if x != "Debug"]
+            log.append("T2 %s line %d: Debug removed from #[derive(%s)]" % (where, t.line, ", ".join(names)))
+            if keep:
+                out.append(Tok("attr", "#[derive(%s)]" % ", ".join(keep), t.pos, t.line))
+            nl = sum(x.s.count("\n") for x in toks[i:end])
+            if nl:
+                out.append(Tok("ws", "\n" * nl, t.pos, t.line))
+            i = end
         else:
             out.extend(toks[i:end]); i = end
     return out
